@@ -505,11 +505,18 @@ func getDefinedArgT(
 	definedArg string,
 ) *base.T {
 
+	// overloads of a configured method keep their parameters under a name of
+	// their own (see T.ArgScope)
+	method := m.method
+	if methodT.ArgScope != "" {
+		method = methodT.ArgScope
+	}
+
 	definedArgT :=
 		base.GetValueT(
 			methodT.GetFrame(),
 			class,
-			m.method,
+			method,
 			definedArg,
 			methodT.IsStatic,
 		)
@@ -519,7 +526,7 @@ func getDefinedArgT(
 			base.GetValueT(
 				methodT.DefinedFrame,
 				methodT.DefinedClass,
-				m.method,
+				method,
 				definedArg,
 				methodT.IsStatic,
 			)
@@ -530,7 +537,7 @@ func getDefinedArgT(
 			base.GetValueT(
 				m.evaluatedObjectT.GetFrame(),
 				class,
-				m.method,
+				method,
 				definedArg,
 				methodT.IsStatic,
 			)
